@@ -6,7 +6,8 @@ Workload (generated, well-posed by construction; reference models in vlib/refs/c
                 preconditioner (incl. non-symmetric), explicit-inverse and spsolve paths of PCGLS
   fista         ISTA/FISTA with the shipped ProximalL1 / ProjectNonnegative / ProjectBox, several
                 regularisation strengths, step {0.5, 0.99}/||A||^2, matrix and callable operator
-  lm            Levenberg-Marquardt on six small non-linear least-squares families, dense and sparse Jacobians
+  lm            Levenberg-Marquardt on six small non-linear least-squares families, dense and sparse Jacobians, three
+                residual scalings, far starts and warm starts (1e-9 from a minimiser); explicit-matrix probe
   wrap          L_BFGS_B / minimize / maximize / LS around scipy, every documented method, with a recording
                 pass-through on the scipy entry point the wrapper looks up at call time
   prox          the three shipped maps against a brute-force 1-D grid argmin and their variational inequality
@@ -509,7 +510,7 @@ def _run_lm(case, ctx):
         # LM keeps the evaluated point with the smallest sum of squares (steps are accepted iff they do not increase it)
         kept = min(fin, key=lambda e: _norm(pb.r(e))) if fin else None
         best = _norm(pb.J(kept).T @ pb.r(kept)) / g0_ if kept is not None else np.inf
-        stat = kept is not None and _norm(pb.J(kept).T @ pb.r(kept)) <= 1e-7 * np.linalg.norm(pb.J(kept), 2) * _norm(pb.r(x0))
+        stat = kept is not None and _norm(pb.J(kept).T @ pb.r(kept)) <= 1e-7 * np.linalg.norm(pb.J(kept), 2) * _norm(pb.r(pb.x0))   # pb.x0 = the far start: scale of the problem
         ctx.count("lm_nonfinite_return")
         ctx.violation("nonfinite_solution", dict(cfg, gradtol_attained=bool(best <= gradtol), kept_point_stationary=bool(stat),
                                                  stopped_before_maxit=bool(nfev < maxit)),
@@ -640,7 +641,6 @@ def _run_wrap(case, ctx):
     fwd = []
     a_all = list(a)
     if solver == "LS":
-        names = ["fun", "x0"]
         want = {"jac": jac, "method": method, "loss": variant, "xtol": tol, "max_nfev": maxit}
     elif solver == "L_BFGS_B":
         want = dict(kwargs); want["fprime"] = grad
